@@ -42,7 +42,8 @@ def op_bound(op: Any, scn: dict) -> float | None:
     start = 30.0 + 60.0 * n
     res = scn.get("net", {}).get("resolver", {})
     addrs = scn.get("client", {}).get("addresses", [])
-    if addrs and all(a in res and res[a].get("result") == "hang" for a in addrs) and op.do in ("start", "conn.start", "connect"):
+    fq = lambda a: "." in a and ":" not in a and not a.rstrip(".").endswith(".local") and not a[0].isdigit()  # (names only the OS resolver is asked for)
+    if addrs and all(fq(a) and a in res and res[a].get("result") == "hang" for a in addrs) and op.do in ("start", "conn.start", "connect"):
         return 30.0  # nothing ever resolves: the attempt ends with the resolve step's own limit
     if op.do in ("start", "conn.start"):
         return start
